@@ -47,6 +47,7 @@ structure St where
   armed : List Pend := []                   -- timers that exist and have not been stopped
   csubs : List Book := []                   -- FeatureLocal.subscriptions of the local client feature
   cbinds : List Book := []                  -- FeatureLocal.bindings
+  late : List Nat := []                     -- connected peers whose discovery reply has not arrived yet
 
 /-- a remote write from client feature (cEnt, cFeat) of peer `p` to the local server (sEnt, sFeat), counter `w` -/
 def write (s : St) (p : Nat) (cEnt : List Nat) (cFeat : Nat) (sEnt : List Nat) (sFeat w : Nat) (short : Bool) : St × String :=
@@ -78,7 +79,8 @@ def fire (s : St) : St :=
 def late (s : St) : List Pend := (fired s).filter fun x => !s.alive.contains x.peer
 
 def clientAdd (s : St) (bind : Bool) (p : Nat) (ent : List Nat) (feat : Nat) : St × String :=
-  if !s.alive.contains p then (s, "err") else
+  -- the peer is found by its device address, which is known from its discovery reply on
+  if !s.alive.contains p || s.late.contains p then (s, "err") else
   if bind then ({ s with cbinds := s.cbinds ++ [⟨p, ent, feat⟩] }, "ok")
   else ({ s with csubs := s.csubs ++ [⟨p, ent, feat⟩] }, "ok")
 
